@@ -1,48 +1,75 @@
 #!/usr/bin/env python3
 """For every /verif/seeded/<id> whose meta.json has no confirmed test run yet: apply the patch in a scratch
 worktree of /repo, run strax's own suite there and compare with BASELINE.json stable_pass; record the result
-in meta.json (validation.tests_rc / tests_summary). usage: seeded_tests.py [id ...]"""
+in meta.json (validation.tests_rc / tests_summary).
+
+usage: seeded_tests.py [--lanes N] [id ...]
+Each lane keeps ONE worktree (/tmp/st_lane<i>) and ONE numba cache for all its mutants: between mutants only the
+patched files change (git checkout + git apply), so numba recompiles only what the patch touched."""
 import json
 import os
 import subprocess
 import sys
+import threading
 from pathlib import Path
 
 VERIF = Path(__file__).resolve().parents[1]
+LOCK = threading.Lock()
 
 
-def sh(cmd, cwd=None, env=None, timeout=7200):
+def sh(cmd, cwd=None, env=None, timeout=10800):
     p = subprocess.run(cmd, shell=True, cwd=cwd, env=env, capture_output=True, text=True, timeout=timeout)
     return p.returncode, p.stdout + p.stderr
 
 
-def main():
-    ids = sys.argv[1:] or sorted(p.name for p in (VERIF / "seeded").iterdir() if (p / "meta.json").exists())
-    for sid in ids:
-        d = VERIF / "seeded" / sid
-        meta = json.loads((d / "meta.json").read_text())
-        v = meta.setdefault("validation", {})
-        if v.get("tests_rc") == 0:
-            continue
-        wt = f"/tmp/st_{sid}"
-        sh(f"git -C /repo worktree remove --force {wt}")
-        rc, out = sh(f"git -C /repo worktree add -q {wt} HEAD")
-        assert rc == 0, out
-        try:
+def lane(i, ids, nproc):
+    wt = f"/tmp/st_lane{i}"
+    sh(f"git -C /repo worktree remove --force {wt}")
+    rc, out = sh(f"git -C /repo worktree add -q {wt} HEAD")
+    assert rc == 0, out
+    env = dict(os.environ, NUMBA_CACHE_DIR=f"/tmp/st_lane{i}_numba")
+    try:
+        for sid in ids:
+            d = VERIF / "seeded" / sid
+            sh("git checkout -q -- . && git clean -qfd -e __pycache__ -e .hypothesis -e strax_data", cwd=wt)
+            sh("git checkout -q --detach $(git -C /repo rev-parse HEAD)", cwd=wt)
             rc, out = sh(f"git apply {d/'patch.diff'}", cwd=wt)
             if rc != 0:
-                v["tests_rc"], v["tests_summary"] = 3, "patch does not apply on current HEAD: " + out[-300:]
+                res = (3, "patch does not apply on current HEAD: " + out[-300:])
             else:
-                env = dict(os.environ, NUMBA_CACHE_DIR=f"/tmp/st_{sid}_numba")
-                rc, out = sh(f"NPROC={os.environ.get('NPROC','8')} python3 {VERIF/'tools'/'baseline_compare.py'} /tmp/st_{sid}.xml {wt}", env=env)
-                v["tests_rc"], v["tests_summary"] = rc, out[-600:]
+                rc, out = sh(f"NPROC={nproc} python3 {VERIF/'tools'/'baseline_compare.py'} /tmp/st_lane{i}.xml {wt}", env=env)
+                res = (rc, out[-600:])
+            with LOCK:
+                meta = json.loads((d / "meta.json").read_text())
+                v = meta.setdefault("validation", {})
+                v["tests_rc"], v["tests_summary"] = res
                 v["tests_repo_head"] = sh("git -C /repo rev-parse --short HEAD")[1].strip()
-        finally:
-            sh(f"git -C /repo worktree remove --force {wt}")
-            sh(f"rm -rf /tmp/st_{sid}_numba /tmp/st_{sid}.xml /tmp/st_{sid}.xml.rerun")
-        v["valid_seed"] = v.get("demo_clean_rc") == 0 and v.get("demo_patched_rc", 0) != 0 and v["tests_rc"] == 0
-        (d / "meta.json").write_text(json.dumps(meta, indent=1))
-        print(sid, "tests_rc", v["tests_rc"], v["tests_summary"].strip().splitlines()[-1] if v["tests_summary"].strip() else "")
+                v["valid_seed"] = v.get("demo_clean_rc") == 0 and v.get("demo_patched_rc", 0) != 0 and v["tests_rc"] == 0
+                (d / "meta.json").write_text(json.dumps(meta, indent=1))
+                print(sid, "tests_rc", res[0], res[1].strip().splitlines()[-1] if res[1].strip() else "", flush=True)
+    finally:
+        sh(f"git -C /repo worktree remove --force {wt}")
+        sh(f"rm -rf /tmp/st_lane{i}_numba /tmp/st_lane{i}.xml /tmp/st_lane{i}.xml.rerun")
+
+
+def main():
+    args = sys.argv[1:]
+    lanes = 1
+    if args and args[0] == "--lanes":
+        lanes = int(args[1])
+        args = args[2:]
+    ids = args or sorted(p.name for p in (VERIF / "seeded").iterdir() if (p / "meta.json").exists())
+    todo = []
+    for sid in ids:
+        v = json.loads((VERIF / "seeded" / sid / "meta.json").read_text()).get("validation", {})
+        if v.get("tests_rc") != 0:
+            todo.append(sid)
+    nproc = os.environ.get("NPROC", str(max(2, 12 // lanes)))
+    ths = [threading.Thread(target=lane, args=(i, todo[i::lanes], nproc)) for i in range(lanes)]
+    for t in ths:
+        t.start()
+    for t in ths:
+        t.join()
 
 
 if __name__ == "__main__":
